@@ -1,4 +1,5 @@
 import Rustemo.Proofs.LexFilters
+import Rustemo.Proofs.LexOrder
 /-!
 # C06 — lexical ambiguity is resolved in the documented order of strategies
 
@@ -12,8 +13,12 @@ the executable `Lex.sortedOk` (sorted by key, ties in grammar order, flags as co
 `withFlags`, string recognizers not empty).  There is no upper bound on the length of a string
 recognizer any more: the former arithmetic key `prio*1000+len` forced `len < 1000`, the pair does not.
 
-PARTIAL: the last strategy, grammar order (LR takes the first of the remaining tokens; that the first
-one is the earliest in the grammar), is decided by oracle + correspondence only.
+The last strategy, grammar order, is covered too: the iterator yields its tokens in strictly
+increasing grammar index (`C06_iterator_order`: what it yields is a sublist of the sorted list whose
+members all have the same sort key, and the sort breaks ties of the key by grammar index), so the
+first of the remaining tokens — the one LR acts on, and the only one GLR keeps with grammar order on —
+is the one that comes first in the grammar (`C06_lr_picks_first_in_grammar`,
+`C06_glr_grammar_order_is_first`).
 -/
 namespace Rustemo.Props.C06
 open Rustemo.Lex
@@ -111,5 +116,99 @@ theorem C06_long_string_does_not_outrank :
 /-- and the model of the sort itself puts them in that order, whatever the incoming order -/
 example : sortTerms true [⟨1, 9, some 1000⟩, ⟨2, 10, none⟩] = [⟨2, 10, none⟩, ⟨1, 9, some 1000⟩] ∧
     sortTerms true [⟨2, 10, none⟩, ⟨1, 9, some 1000⟩] = [⟨2, 10, none⟩, ⟨1, 9, some 1000⟩] := by decide
+
+/-- **Finally grammar order: the iterator yields its tokens in grammar order.**  For `a` before `b`
+    in the yielded list, `a`'s grammar index is strictly lower than `b`'s: the yielded list is a
+    sublist (in order) of the sorted list, all survivors share one sort key, and ties of the key are
+    sorted by grammar index.  No hypothesis beyond those of the other C06 theorems. -/
+theorem C06_iterator_order (ms : Bool) (m : Nat → Option Nat) (S : List TermDesc)
+    (hs : sortedB ms S = true) (hw : S.all wftB = true) :
+    (iter m false (withFlags ms S)).Pairwise (fun a b => a.1.idx < b.1.idx) :=
+  iter_idx_increasing ms m S (sortedB_sound ms S hs)
+    (fun u hu => wftB_sound u (List.all_eq_true.mp hw u hu))
+
+/-- non-vacuity: two regexes and a string of the top priority plus a lower one; without most-specific
+    all three of the top priority are yielded, in grammar order 1, 2, 4 -/
+example :
+    sortedB false [⟨1, 10, none⟩, ⟨2, 10, some 2⟩, ⟨4, 10, none⟩, ⟨3, 5, none⟩] = true ∧
+    [⟨1, 10, none⟩, ⟨2, 10, some 2⟩, ⟨4, 10, none⟩, (⟨3, 5, none⟩ : TermDesc)].all wftB = true ∧
+    iter (fun i => some (i + 1)) false
+        (withFlags false [⟨1, 10, none⟩, ⟨2, 10, some 2⟩, ⟨4, 10, none⟩, ⟨3, 5, none⟩]) =
+      [(⟨1, 10, none⟩, 2), (⟨2, 10, some 2⟩, 3), (⟨4, 10, none⟩, 5)] := by decide
+
+/-- non-vacuity with most-specific on: two equally long strings (grammar indices 3 and 5) and two
+    regexes (1 and 6) of one priority.  If everything matches only string 3 is yielded (the earlier of
+    the two); if no string matches, the regexes are yielded in grammar order 1, 6 -/
+example :
+    sortedB true [⟨3, 10, some 2⟩, ⟨5, 10, some 2⟩, ⟨1, 10, none⟩, ⟨6, 10, none⟩] = true ∧
+    [⟨3, 10, some 2⟩, ⟨5, 10, some 2⟩, ⟨1, 10, none⟩, (⟨6, 10, none⟩ : TermDesc)].all wftB = true ∧
+    iter (fun _ => some 2) false
+        (withFlags true [⟨3, 10, some 2⟩, ⟨5, 10, some 2⟩, ⟨1, 10, none⟩, ⟨6, 10, none⟩]) =
+      [(⟨3, 10, some 2⟩, 2)] ∧
+    iter (fun i => if i = 3 ∨ i = 5 then none else some i) false
+        (withFlags true [⟨3, 10, some 2⟩, ⟨5, 10, some 2⟩, ⟨1, 10, none⟩, ⟨6, 10, none⟩]) =
+      [(⟨1, 10, none⟩, 1), (⟨6, 10, none⟩, 6)] := by decide
+
+/-- **LR acts on the first in the grammar.**  The token the LR parser acts on is EXACTLY the survivor
+    of "priority, then most specific" that passes the longest-match filter (if on) and has the lowest
+    grammar index among the survivors that pass it.  (That no token is found iff nothing survives is
+    `C06_lr_acts_on`.) -/
+theorem C06_lr_picks_first_in_grammar (ms longest : Bool) (m : Nat → Option Nat) (S : List TermDesc)
+    (hs : sortedB ms S = true) (hw : S.all wftB = true) (t : TermDesc) (l : Nat) :
+    lrPick longest (iter m false (withFlags ms S)) = some (t, l) ↔
+      (Survives ms m S t ∧ m t.idx = some l ∧
+       (longest = true → ∀ u lu, Survives ms m S u → m u.idx = some lu → lu ≤ l) ∧
+       (∀ u lu, Survives ms m S u → m u.idx = some lu → (longest = true → lu = l) →
+          t.idx ≤ u.idx)) := by
+  have hiff := C06_iterator_yields_survivors ms m S hs hw
+  rw [lrPick_iff_first longest _ (t, l) (C06_iterator_order ms m S hs hw)]
+  constructor
+  · rintro ⟨hin, hmax, hfirst⟩
+    obtain ⟨hsv, hm⟩ := (hiff t l).mp hin
+    exact ⟨hsv, hm, fun hl u lu hsu hmu => hmax hl (u, lu) ((hiff u lu).mpr ⟨hsu, hmu⟩),
+      fun u lu hsu hmu hlen => hfirst (u, lu) ((hiff u lu).mpr ⟨hsu, hmu⟩) hlen⟩
+  · rintro ⟨hsv, hm, hmax, hfirst⟩
+    refine ⟨(hiff t l).mpr ⟨hsv, hm⟩, fun hl u hu => ?_, fun b hb hlen => ?_⟩
+    · obtain ⟨hsu, hmu⟩ := (hiff u.1 u.2).mp hu
+      exact hmax hl u.1 u.2 hsu hmu
+    · obtain ⟨hsb, hmb⟩ := (hiff b.1 b.2).mp hb
+      exact hfirst b.1 b.2 hsb hmb hlen
+
+/-- non-vacuity, on the list above (terminal `i` matches `i + 1` bytes, except that 2 and 4 both match
+    5): without longest match LR acts on terminal 1, the first in the grammar; with longest match
+    terminals 2 and 4 tie on the length and LR acts on 2, the earlier of them -/
+example :
+    lrPick false (iter (fun i => some (if i = 2 then 5 else i + 1)) false
+        (withFlags false [⟨1, 10, none⟩, ⟨2, 10, some 2⟩, ⟨4, 10, none⟩, ⟨3, 5, none⟩])) =
+      some (⟨1, 10, none⟩, 2) ∧
+    lrPick true (iter (fun i => some (if i = 2 then 5 else i + 1)) false
+        (withFlags false [⟨1, 10, none⟩, ⟨2, 10, some 2⟩, ⟨4, 10, none⟩, ⟨3, 5, none⟩])) =
+      some (⟨2, 10, some 2⟩, 5) := by decide
+
+/-- **GLR with grammar order on follows exactly the token LR acts on**: what it keeps is the empty
+    list or the singleton of the token characterised in `C06_lr_picks_first_in_grammar` (the equation
+    holds for any token list; the characterisation for the iterator's). -/
+theorem C06_glr_grammar_order_is_first (ms longest : Bool) (m : Nat → Option Nat) (S : List TermDesc)
+    (hs : sortedB ms S = true) (hw : S.all wftB = true) :
+    glrKeep longest true (iter m false (withFlags ms S)) =
+      (lrPick longest (iter m false (withFlags ms S))).toList ∧
+    ∀ t l, (t, l) ∈ glrKeep longest true (iter m false (withFlags ms S)) ↔
+      (Survives ms m S t ∧ m t.idx = some l ∧
+       (longest = true → ∀ u lu, Survives ms m S u → m u.idx = some lu → lu ≤ l) ∧
+       (∀ u lu, Survives ms m S u → m u.idx = some lu → (longest = true → lu = l) →
+          t.idx ≤ u.idx)) := by
+  refine ⟨glrKeep_order_eq_lrPick longest _, fun t l => ?_⟩
+  rw [glrKeep_order_eq_lrPick, Option.mem_toList,
+    ← C06_lr_picks_first_in_grammar ms longest m S hs hw t l]
+
+/-- non-vacuity, same list and matching function: GLR with grammar order keeps just terminal 2 under
+    longest match (2 and 4 tie), and all of 2 and 4 with grammar order off -/
+example :
+    glrKeep true true (iter (fun i => some (if i = 2 then 5 else i + 1)) false
+        (withFlags false [⟨1, 10, none⟩, ⟨2, 10, some 2⟩, ⟨4, 10, none⟩, ⟨3, 5, none⟩])) =
+      [(⟨2, 10, some 2⟩, 5)] ∧
+    glrKeep true false (iter (fun i => some (if i = 2 then 5 else i + 1)) false
+        (withFlags false [⟨1, 10, none⟩, ⟨2, 10, some 2⟩, ⟨4, 10, none⟩, ⟨3, 5, none⟩])) =
+      [(⟨2, 10, some 2⟩, 5), (⟨4, 10, none⟩, 5)] := by decide
 
 end Rustemo.Props.C06
